@@ -236,11 +236,12 @@ func Cmp(ei, ej Object) int {
 	case STRING:
 		return cmp.Compare(ei.(String).Value, ej.(String).Value)
 
-	case QUOTE:
-		// quote() values are reachable from programs (==, map keys, min/max): order them by their printed form.
+	case QUOTE, MACRO:
+		// quote() values are reachable from programs (==, map keys, min/max), macros when an upper case
+		// (constant) macro name is defined again: order them by their printed form.
 		return cmp.Compare(ei.Inspect(), ej.Inspect())
-	// RETURN, MACRO, ANY aren't expected to be compared.
-	case RETURN, MACRO, UNKNOWN, ANY:
+	// RETURN, ANY aren't expected to be compared.
+	case RETURN, UNKNOWN, ANY:
 		panic(fmt.Sprintf("Unexpected type in Cmp: %s", ti))
 	}
 	return 1
